@@ -251,7 +251,7 @@ impl Property for C04 {
         check(s)
     }
     fn valid(s: &Scenario) -> bool {
-        s.k.iter().all(|x| dom::moderate(*x)) && dom::moderate(s.setpoint) && dom::t0_span(s.t0) && s.shift.abs() <= 1_000_000_000_000_000 && (-8..=8).contains(&s.scale) && (1..=64).contains(&s.events.len()) && s.events.iter().all(|e| match e {
+        s.k.iter().all(|x| dom::moderate(*x)) && dom::moderate(s.setpoint) && dom::t0_span(s.t0) && s.shift.unsigned_abs() <= 1_000_000_000_000_000 && (-8..=8).contains(&s.scale) && (1..=64).contains(&s.events.len()) && s.events.iter().all(|e| match e {
             Ev::P(v, dt) => dom::moderate(*v) && dom::dt_pos(*dt),
             Ev::A => true,
             Ev::E(c) => *c <= 2,
